@@ -171,7 +171,12 @@ SET_OF_decode_oer(const asn_codec_ctx_t *opt_codec_ctx,
         ASN_DEBUG("OER SET OF %s Decoding PHASE 1", td->name);
 
         for(; ctx->left > 0; ctx->left--) {
-            asn_dec_rval_t rv = elm->type->op->oer_decoder(
+            asn_dec_rval_t rv;
+            if(!elm->type->op->oer_decoder) {
+                /* OER is not defined for the element's type */
+                RETURN(RC_FAIL);
+            }
+            rv = elm->type->op->oer_decoder(
                 opt_codec_ctx, elm->type,
                 elm->encoding_constraints.oer_constraints, &ctx->ptr, ptr,
                 size);
@@ -265,6 +270,10 @@ SET_OF_encode_oer(const asn_TYPE_descriptor_t *td,
     for(n = 0; n < list->count; n++) {
         void *memb_ptr = list->array[n];
         asn_enc_rval_t er;
+        if(!elm->type->op->oer_encoder) {
+            /* OER is not defined for the element's type */
+            ASN__ENCODE_FAILED;
+        }
         er = elm->type->op->oer_encoder(
             elm->type, elm->encoding_constraints.oer_constraints, memb_ptr, cb,
             app_key);
